@@ -173,6 +173,7 @@ def _run(check: PropertyCheck, driver_module: str, tier: str, seed: int, t0: flo
             raise MachineryError(f"{spec['module']} emitted no scenario (vacuous instance)")
         scenarios += [(s, "tlc") for s in res.emitted]
     n_tlc = len(scenarios)
+    t_mc = time.time() - t0
     if check.extra_scenarios is not None:
         scenarios += [(s, "random") for s in check.extra_scenarios(tier, seed)]
     if limit:
@@ -189,11 +190,13 @@ def _run(check: PropertyCheck, driver_module: str, tier: str, seed: int, t0: flo
         if err:
             raise MachineryError(f"driver failure on scenario {json.dumps(s)[:500]}:\n{err}")
         cases.append(Case(scenario=s, trace=trace, features=features, origin=origin))
+    t_drive = time.time() - t0 - t_mc
     # ---- stage 3: trace validation by TLC
     verdicts, tres = tlc.validate_traces(check.trace_module, [c.trace for c in cases], chunk=check.trace_chunk)
     if tres:
         states += tres.distinct
         transitions += tres.generated
+    t_val = time.time() - t0 - t_mc - t_drive
     violations: list[tuple[Case, dict]] = []
     known: dict[str, int] = {}
     for c, v in zip(cases, verdicts):
@@ -208,7 +211,8 @@ def _run(check: PropertyCheck, driver_module: str, tier: str, seed: int, t0: flo
     for f in findings:
         if f["id"] in known:
             print(f"KNOWN-FINDING: property={prop} {f['what']} [{f['id']}: {known[f['id']]} scenarios]")
-    replay_dir = VERIF / "replay" / prop
+    out_root = Path(os.environ.get("RV_OUT", str(VERIF)))      # seeded-change runs redirect evidence/replay output
+    replay_dir = out_root / "replay" / prop
     seen_clause: dict[str, int] = {}
     for c, v in violations:
         seen_clause[v["clause"]] = seen_clause.get(v["clause"], 0) + 1
@@ -240,14 +244,16 @@ def _run(check: PropertyCheck, driver_module: str, tier: str, seed: int, t0: flo
             "scenarios_from_tlc": n_tlc, "scenarios_random": len(cases) - n_tlc,
             "trace_events": events, "model_runs": mc_info,
             "rejected_known": known, "rejected_new": len(violations),
+            "stage_wall_s": {"model_check": round(t_mc, 1), "replay": round(t_drive, 1), "trace_validation": round(t_val, 1)},
         },
         "assumptions": check.assumptions,
         "wall_s": round(time.time() - t0, 2),
         "violations": len(violations),
     }
-    (VERIF / "evidence").mkdir(exist_ok=True)
-    (VERIF / "evidence" / f"{prop}.json").write_text(json.dumps(evidence, indent=1))
+    (out_root / "evidence").mkdir(parents=True, exist_ok=True)
+    (out_root / "evidence" / f"{prop}.json").write_text(json.dumps(evidence, indent=1))
     print(f"{prop} {tier}: {states} spec states, {len(cases)} traces validated ({events} events), "
           f"{len(nontrivial_keys)} distinct non-trivial, {len(violations)} violations, "
-          f"{sum(known.values())} known-finding rejections, {evidence['wall_s']} s")
+          f"{sum(known.values())} known-finding rejections, {evidence['wall_s']} s "
+          f"(mc {t_mc:.0f} / replay {t_drive:.0f} / validate {t_val:.0f})")
     return rc
